@@ -64,6 +64,7 @@ type Obs struct {
 	HookCommits        int // entries that committed an application transaction inside the hook
 	HookLockHeld       int // entries that left an application write transaction open when the hook returned
 	BGSpawned          int // litestream calls started on their own goroutine from inside a hook
+	LSInHook           int // litestream calls made synchronously from inside a hook
 	lastSalt           [2]uint32
 }
 
